@@ -283,3 +283,17 @@ package protocol
 //@   loop 3:
 //@     invariant ghost(sqrem) >= 1 && s.nextRecv.v == old(s.nextRecv.v)
 //@     invariant mathint(s.nextSend.v) == (mathint(old(s.nextSend.v)) + mathint(nFragment)) % 4294967296
+//@
+//@ // Dispatch of one received segment. Direction check (C04): a segment type that only
+//@ // the local side itself sends (e.g. a reflected copy of its own data) is refused
+//@ // before it can touch the session. No input makes it panic (C10).
+//@ func (s *Session) input(seg *segment) (err error)
+//@   property C04
+//@   mode int
+//@   noframe
+//@   wraps_signed
+//@   partial
+//@   posts_only
+//@   requires s != nil && wfSegMeta(seg)
+//@   ensures s.isClient && !(protoOf(seg) == 3 || protoOf(seg) == 7 || protoOf(seg) == 11 || protoOf(seg) == 9 || protoOf(seg) == 4 || protoOf(seg) == 5) ==> err != nil && s.nextRecv.v == old(s.nextRecv.v) && ghost(qn) == old(ghost(qn))
+//@   ensures !s.isClient && !(protoOf(seg) == 2 || protoOf(seg) == 6 || protoOf(seg) == 10 || protoOf(seg) == 8 || protoOf(seg) == 4 || protoOf(seg) == 5) ==> err != nil && s.nextRecv.v == old(s.nextRecv.v) && ghost(qn) == old(ghost(qn))
